@@ -202,6 +202,10 @@ func (P *Program) resolveModifies(fn *ssa.Function, con *Contract) error {
 			con.Modifies = append(con.Modifies, &ModClause{src: src, all: true})
 			continue
 		}
+		if src == "allmaps" {
+			con.Modifies = append(con.Modifies, &ModClause{src: src, allMaps: true})
+			continue
+		}
 		e, err := parseSpecExpr(src)
 		if err != nil {
 			return err
@@ -352,7 +356,7 @@ var purePrefixes = []string{
 	"(time.Time).", "(time.Duration).", "time.Unix", "time.Date", "time.Since", "time.Duration", "(*time.Time).",
 	"(reflect.Value).", "reflect.ValueOf", "reflect.TypeOf", "(*reflect.rtype).", "reflect.DeepEqual",
 	"path.", "path/filepath.Base", "sort.SearchInts", "sort.SearchStrings", "bytes.Equal", "bytes.Compare",
-	"(*regexp.Regexp).Match", "(*regexp.Regexp).Find", "(*regexp.Regexp).Replace", "(*regexp.Regexp).String",
+	"(*regexp.Regexp).", "regexp.MustCompile", "regexp.QuoteMeta",
 	"(*strings.Builder).String", "(*strings.Builder).Len", "(*errors.errorString).Error",
 	"(*sync/atomic.Int64).Load", "(*sync/atomic.Int32).Load", "(*sync/atomic.Bool).Load", "sync/atomic.LoadInt64", "sync/atomic.LoadInt32",
 	"(*sync/atomic.Uint64).Load", "(*sync/atomic.Value).Load",
